@@ -83,6 +83,18 @@ def run(tier, replay=None):
                 drift += 1
                 if drift <= 3:
                     chk.cov.setdefault("drift_examples", []).append({"id": rec['id'], "why": v['why']})
+        # the hextb EXECUTABLE across seeds (everything the process writes to its standard output counts - also what the Verilated design
+        # itself prints, which the in-process harness does not capture - and its status)
+        import corpus, subprocess
+        tdir = corpus.tools(with_verilator=True)
+        nexe = 0
+        for iid, b, inp, r0 in [im for im in images if im[3]['steps'] < 3000][:(4 if tier == "quick" else 40)]:
+            wd = os.path.join(d, "exe"); shutil.rmtree(wd, ignore_errors=True); os.makedirs(wd)
+            for k in range(48 if tier == "quick" else 400):
+                p = subprocess.run([os.path.join(tdir, "hextb"), b, "+verilator+seed+%d" % (vlib.seed() * 1000 + 1 + k)], cwd=wd, input=bytes(inp), stdout=subprocess.PIPE, stderr=subprocess.PIPE, timeout=120)
+                nexe += 1
+                history.append({'key': "exe|" + iid + "|" + bytes(inp).hex(), 'cfg': "exe/seed=%d" % (vlib.seed() * 1000 + 1 + k), 'obs': "%d:%s:%s" % (p.returncode, p.stdout.hex(), p.stderr.hex()[:200])})
+        chk.set("executable_runs_across_seeds", nexe)
         history.append({'key': history[0]['key'], 'cfg': 'canary', 'obs': 'CANARY'})
         hf = os.path.join(d, "hist.ndjson"); vlib.write_ndjson(hf, history)
         dout = vlib.tlc_fold("Determinism", "DeterminismF.cfg", [hf], heap="6g")[0][0][0]
@@ -90,8 +102,9 @@ def run(tier, replay=None):
         if dout['nbad'] - len(dbad) != 1 and len(dout['bad']) < 40:
             raise vlib.MachineryError("canary not reported by Determinism")
         for b in dbad:
-            chk.violation("poweron-dependent:%s" % b['cfg2'].split('/')[-1].split('=')[0] + ":" + b['key'].split('|')[0].split(':')[0],
-                          "hextb's output / exit status for %s differs between power-on states %s and %s" % (b['key'].split('|')[0], b['cfg1'], b['cfg2']), {"conflict.json": json.dumps(b)})
+            name = b['key'].split('|')[1] if b['key'].startswith('exe|') else b['key'].split('|')[0]
+            chk.violation("poweron-dependent:%s" % ("exe" if b['key'].startswith('exe|') else b['cfg2'].split('/')[-1].split('=')[0]) + ":" + name.split(':')[0],
+                          "hextb's output / exit status for %s differs between power-on states %s and %s" % (name, b['cfg1'], b['cfg2']), {"conflict.json": json.dumps(b)})
         chk.set("hextb_runs", len(cases)); chk.set("verdicts", dict(cnt)); chk.set("half_cycles_validated_against_HexTB", halves)
         chk.set("DRIFT_runs_differing_from_HexTB_mechanism", drift); chk.set("seed_sweep_programs", [s[0] for s in sweep])
         nok = sum(v for k, v in cnt.items() if k.startswith('ok'))
